@@ -351,3 +351,100 @@ def c07_7(R):
         R.ok("ack_to_transmit", b.name, "last_consumed_remote_seq_nr > last_sent_ack_nr (SeqNr order)")
     else:
         R.fail([b.name, "shape"], "ack_to_transmit is no longer the modular comparison last_consumed_remote_seq_nr > last_sent_ack_nr", where=b.where(), instance="ack_to_transmit")
+
+
+SENT_FIELDS = ("VirtualSocket.last_sent_ack_nr", "VirtualSocket.last_sent_window")
+
+
+@rule("C07.8", ["C07", "C02"], ["E2", "E6"], "the 'an ACK went out' bookkeeping runs only for a datagram the transport accepted",
+      "last_sent_ack_nr / last_sent_window (and with them consumed_but_unacked_bytes = 0 and turning the delayed-ACK timer off) are what every ACK trigger is measured against. They are stored by the "
+      "on_packet_sent! expansion in the three send_data! closures and in VirtualSocket::on_packet_sent (called from send_control_packet). Each of these stores - for the fn, each call of it - must be "
+      "controlled by this_poll.transport_pending = false tested after the try_poll_send_to* call of the same body: if the UDP socket was not writable nothing left, and recording the ACK as sent "
+      "cancels the delayed ACK, the window update and every immediate trigger that was due.")
+def c07_8(R):
+    F = R.facts
+    sites = []
+    for b in F.bodies(lambda n: n.startswith("stream_dispatch::VirtualSocket::")):
+        st = [s for s in b.stmts() if written_field(b, s) in SENT_FIELDS]
+        if not st:
+            continue
+        # a body that does nothing but the bookkeeping (the fn wrapper of the macro): judge its call sites instead
+        sends = [t for t in b.calls() if (t.resolved or t.callee or "").split("<")[0].endswith(("try_poll_send_to", "try_poll_send_to_vectored"))]
+        if not sends and b.kind != "closure":
+            cs = call_sites_of(F, b.name)
+            R.require(cs, "call sites of %s" % b.name)
+            for cb, ct in cs:
+                sites.append((cb, ct, "call(%s)" % b.name.split("::")[-1]))
+        else:
+            for s in st:
+                sites.append((b, s, "store(%s)" % written_field(b, s)))
+    R.floor("sent-bookkeeping sites", len(sites), 7)
+    for b, it, what in sites:
+        sends = [t for t in b.calls() if (t.resolved or t.callee or "").split("<")[0].endswith(("try_poll_send_to", "try_poll_send_to_vectored"))]
+        ok = False
+        for c, truth, d, term, *_ in controlling(b, it.bb):
+            if d == "field:ThisPoll.transport_pending=false" and any(point_reaches(b, t, term) for t in sends):
+                ok = True
+        if ok:
+            R.ok("sent-bookkeeping=>accepted", b.name, "%s under transport_pending = false after the send" % what)
+        else:
+            R.fail([b.name, what, "not-under(transport_pending=false after send)"],
+                   "the ACK bookkeeping (%s) runs although the transport may have returned Pending: nothing was sent, but last_sent_ack_nr / last_sent_window / consumed_but_unacked_bytes now say the peer "
+                   "was told - the delayed ACK and the window update that were due are never sent" % what, where=it.where(), instance="sent-bookkeeping=>accepted")
+
+
+@rule("C07.9", ["C07", "C02"], ["E6", "E4"], "a nearly closed receive window makes the connection task wait for the reader",
+      "The window re-opens only when the reader drains the queue, so the task must be woken by the reader whenever less than one segment of room would be left after flushing the in-order front: "
+      "UserRx::flush registers dispatcher_waker under (window - front bytes, saturating at 0) < max_incoming_payload - in particular when the parked in-order bytes exceed the free space (the "
+      "difference saturates to 0). The guard of the registration is read as an ordering (any spelling of the same comparison, or window < front + mss) over exactly these three values; a partial form "
+      "(checked_sub / is_some_and, a missing operand) skips the registration in the overshoot case and the zero window stands forever.")
+def c07_9(R):
+    b = R.body("stream_rx::UserRx::flush")
+    regs = [t for t in b.calls() if call_matches(t, ("utils::update_optional_waker",)) and trace(b, t.args[0]).last_field == "UserRxSharedLocked.dispatcher_waker"]
+    R.floor("registration of the dispatcher waker in flush", len(regs), 1)
+
+    def is_window(o):
+        t = trace(b, o)
+        return t.kind == "call" and call_matches(t.root[1], ("MsgQueue::window",))
+
+    def is_front(o):
+        t = trace(b, o)
+        return t.kind == "call" and call_matches(t.root[1], ("OutOfOrderQueue::filled_front_bytes",))
+
+    def is_mss(o):
+        t = trace(b, o)
+        if t.last_field == "UserRx.max_incoming_payload":
+            return True
+        return t.kind == "call" and call_matches(t.root[1], ("NonZero::get", "get")) and t.root[1].args and trace(b, t.root[1].args[0]).last_field == "UserRx.max_incoming_payload"
+
+    def is_satsub(o):
+        t = trace(b, o)
+        return t.kind == "call" and call_matches(t.root[1], ("saturating_sub",)) and is_window(t.root[1].args[0]) and is_front(t.root[1].args[1])
+
+    def is_sum(o):
+        t = trace(b, o)
+        if t.kind == "call" and call_matches(t.root[1], ("saturating_add",)):
+            x, y = t.root[1].args
+        elif t.kind == "rv" and t.root[1].rv.kind == "bin" and t.root[1].rv.op in ("Add", "AddWithOverflow"):
+            x, y = t.root[1].rv.ops
+        else:
+            return False
+        return (is_front(x) and is_mss(y)) or (is_mss(x) and is_front(y))
+
+    for r in regs:
+        ctl = [(c, truth, d) for c, truth, d, *_ in controlling(b, r.bb)]
+        good = []
+        other = []
+        for c, truth, d in ctl:
+            o = ordering(c, truth)
+            if o is not None and o[2] and ((is_satsub(o[0]) and is_mss(o[1])) or (is_window(o[0]) and is_sum(o[1]))):
+                good.append(d)
+            else:
+                other.append(d)
+        if good and not other:
+            R.ok("nearly-closed=>register", b.name, "registered under (window - front).saturating < mss")
+        else:
+            R.fail([b.name, "registration-guard-not(window -sat front < mss)"] + sorted(other)[:3],
+                   "UserRx::flush registers the dispatcher's waker under a condition that is not (window - in-order front bytes, saturating) < one segment%s: when the peer overshoots the window "
+                   "by one segment and the reader then drains the queue, nobody wakes the connection task - the parked segment is never delivered and the advertised window stays 0"
+                   % (" (extra / different tests: %s)" % ", ".join(other) if other else ""), where=r.where(), instance="nearly-closed=>register")
